@@ -9,10 +9,12 @@ structure St where
   routes : Routes Script := []
   dflt : Option Script := none
   upgrade : Option Script := none
+  /-- the scripted `onUpgradeRequest` calls `markSessionUpgraded(sid)` (script action `mark`), as WebSocketServer does -/
+  upgradeMarks : Bool := false
   /-- `onResponseSuppressed`: returns false / true, or throws a std / non-std exception -/
   suppressHook : Seam Bool := .ret false
   /-- `onUpgradedData` as called by the upgrade arm's buffer drain -/
-  drainHook : Seam Unit := .ret ()
+  drainHook : Nat → Seam Unit := fun _ => .ret ()
   /-- the worker-pool model (`parr` / `prel` / `pdrain` ops) -/
   pool : Pool := {}
   /-- gate of each unfinished task, aligned with `pool.tasks` (`none` = the request reaches no handler) -/
@@ -34,6 +36,7 @@ def parseAction (s : String) : Option HAction :=
   | ["echo"] => some .echo
   | ["big", n, f] => do let n ← n.toNat?; let f ← f.toNat?; if f < 256 then pure (.big n (UInt8.ofNat f)) else none
   | ["gate"] => some .nop
+  | ["mark"] => some .nop
   | ["sleep", n] => n.toNat?.map (fun _ => HAction.nop)
   | _ => none
 
@@ -81,14 +84,46 @@ def parseSess : String → Option (Option SessionInfo)
 /-- env as 6 bits: shutdownAtEntry transportAtEntry flipDuringUserCode enqueueOk upAtClose transportAtSend.  The harness
     realises `upAtClose = false` in the shutdown arm by resetting `_transport` right after the Send (`stop()` between the arm's
     two `_mutex` sections), and `upAtSend = false` by a null transport / a `_shutdown` flag that stays set, so the guard of a later close block
-    fails as well; `buffered` = bytes were placed behind the request in an existing session's read buffer. -/
-def parseEnv (bits : String) (sess : Option SessionInfo) (userCode : Bool) (buffered : Bool) : Option Env :=
+    fails as well; `buffered` = passes of the drain loop that find bytes in an existing session's read buffer. -/
+def parseEnv (bits : String) (sess : Option SessionInfo) (userCode : Bool) (buffered : Nat) : Option Env :=
   match bits.toList.map (fun c => c == '1') with
   | [sh, tr, flip, enq, upc, trs] =>
     let upSend := trs && !(flip && userCode)
     some { shutdownAtEntry := sh, transportAtEntry := tr, transportAtShutdownClose := upc, upAtSend := upSend, enqueueOk := enq,
-           upAtClose := upc && upSend, sess := sess, bufferedAtUpgrade := buffered && sess.isSome }
+           upAtClose := upc && upSend, sess := sess, drainChunks := if sess.isSome then buffered else 0 }
   | _ => none
+
+/-- residual token: `-` or comma-separated hex chunks — the first is in the session buffer when the worker runs, each further one
+    is a read that arrives (through `handleIncomingData`, under the upgrade hold) while the previous pass is inside the hook -/
+def parseChunks (s : String) : Option (List Bytes) :=
+  if s = "-" then some [] else (s.splitOn ",").mapM ofHex
+
+/-- passes of the drain loop that find bytes: none unless the first chunk is non-empty and the hook marked the session upgraded -/
+def chunkCount (st : St) (cs : List Bytes) : Nat :=
+  match cs with
+  | [] => 0
+  | c :: _ => if c.isEmpty || (Gen.HttpRespond.upgradeDrainRequiresMarked && !st.upgradeMarks) then 0 else cs.length
+
+/-- `hook drain` spec: `0` returns always; `thr` / `thx` throws (std / non-std) at every call; `thr@k` / `thx@k` only at call k -/
+def parseDrain (s : String) : Option (Nat → Seam Unit) :=
+  match s.splitOn "@" with
+  | ["0"] => some (fun _ => .ret ())
+  | ["thr"] => some (fun _ => .threw true)
+  | ["thx"] => some (fun _ => .threw false)
+  | ["thr", k] => k.toNat?.map (fun k j => if j == k then .threw true else .ret ())
+  | ["thx", k] => k.toNat?.map (fun k j => if j == k then .threw false else .ret ())
+  | _ => none
+
+/-- how often the upgrade arm's drain loop calls `onUpgradedData` for this request (0 on every other arm) -/
+def hookCallsOf (srv : Server) (env : Env) (d : Bytes) : Nat :=
+  if env.shutdownAtEntry then 0 else
+  match fromWireFormat d with
+  | .error _ => 0
+  | .ok p =>
+    let req0 := mkReq p
+    match (if hasUpgradeHeader req0.headers then srv.upgradeHook req0 else .ret none) with
+    | .ret (some _) => drainHookCalls srv.drainHook env.drainChunks 0
+    | _ => 0
 
 /-- the answer line of a `req` op: the outcome, except that a lone Close has its own word -/
 def showProcess (srv : Server) (env : Env) (d : Bytes) : String :=
@@ -215,9 +250,9 @@ def step (st : St) : List String → St × String
     | some sc => ({ st with dflt := some sc }, "ok")
     | none => (st, "bad-op")
   | ["hook", "upgrade", sc] =>
-    if sc = "none" then ({ st with upgrade := none }, "ok") else
+    if sc = "none" then ({ st with upgrade := none, upgradeMarks := false }, "ok") else
     match parseScript sc with
-    | some sc => ({ st with upgrade := some sc }, "ok")
+    | some sc' => ({ st with upgrade := some sc', upgradeMarks := (sc.splitOn ",").contains "mark" }, "ok")
     | none => (st, "bad-op")
   | ["hook", "suppress", b] =>
     match b with
@@ -249,34 +284,36 @@ def step (st : St) : List String → St × String
     match ofHex hx, parseSess sess with
     | some d, some si =>
       let srv := mkServer st
-      match parseEnv bits si (reachesUserCode srv d) false with
+      match parseEnv bits si (reachesUserCode srv d) 0 with
       | some env => (st, showProcess srv env d)
       | none => (st, "bad-op")
     | _, _ => (st, "bad-op")
   | ["req", hx, bits, sess, residual] =>
-    -- `residual`: bytes behind the request in the session's read buffer when the worker runs (upgrade arm's buffer drain)
-    match ofHex hx, parseSess sess, ofHex residual with
-    | some d, some si, some r =>
+    -- `residual`: bytes behind the request (first chunk in the session's read buffer when the worker runs, further chunks arrive
+    -- while the drain loop is inside the hook); the answer also says how often `onUpgradedData` was called
+    match ofHex hx, parseSess sess, parseChunks residual with
+    | some d, some si, some cs =>
       let srv := mkServer st
-      match parseEnv bits si (reachesUserCode srv d) (!r.isEmpty) with
-      | some env => (st, showProcess srv env d)
+      match parseEnv bits si (reachesUserCode srv d) (chunkCount st cs) with
+      | some env => (st, showProcess srv env d ++ s!" hooks={hookCallsOf srv env d}")
       | none => (st, "bad-op")
     | _, _, _ => (st, "bad-op")
   | ["hook", "drain", b] =>
-    match b with
-    | "0" => ({ st with drainHook := .ret () }, "ok")
-    | "thr" => ({ st with drainHook := .threw true }, "ok")
-    | "thx" => ({ st with drainHook := .threw false }, "ok")
-    | _ => (st, "bad-op")
+    match parseDrain b with
+    | some f => ({ st with drainHook := f }, "ok")
+    | none => (st, "bad-op")
+  | ["dispatchr", hx, residual] =>
+    -- one read = a complete request + bytes behind it (the hold is set by the real `handleIncomingData`); further chunks are later reads
+    match ofHex hx, parseChunks residual with
+    | some d, some cs =>
+      let srv := mkServer st
+      let env : Env := { drainChunks := chunkCount st cs }
+      (st, showProcess srv env d ++ s!" hooks={hookCallsOf srv env d}")
+    | _, _ => (st, "bad-op")
   | ["dispatch", hx] =>
     match ofHex hx with
     | some d => (st, showOutcome (process (mkServer st) {} d))
     | none => (st, "bad-op")
-  | ["dispatchr", hx, residual] =>
-    -- one read = a complete request + bytes behind it: the worker finds them in the session buffer
-    match ofHex hx, ofHex residual with
-    | some d, some r => (st, showProcess (mkServer st) { bufferedAtUpgrade := !r.isEmpty } d)
-    | _, _ => (st, "bad-op")
   | ["overflow", _hx] => (st, showOutcome (.respond overflowWire true) ++ s!" queued={Gen.HttpRespond.poolQueueCap}")
   | ["overflow", _hx, bits] =>
     -- `sendErrorResponse` in an environment: bits = enqueueOk, _shutdown, transport present
